@@ -287,7 +287,7 @@ package object
 // converters depending on the route (seed C08g added rune, i.e. int32, -> RuneConverter: int32 globals and []int32
 // elements reached scripts as one-character strings). byte (uint8) is the one deliberate entry: Go bytes are script
 // bytes. Structural obligation over the package initialiser.
-//@ scan[C08.typeconverters.init] C08 typekeys typeConverters: uint8
+//@ scan[C08.typeconverters.init] C08 typekeys typeConverters: uint8 byte
 
 // conv.for(c, t): c was built by the dispatcher for type t.
 //@ func createTypeConverter
